@@ -124,7 +124,7 @@ func runC13(c *an.Ctx) {
 				c.Undecided("C13.b", "accumulator", "decoded headers are collected by one append per response", proc, nil, "no accumulator found")
 			} else {
 				c.Check(acc.FreshOK, "C13.b", "fresh-result", "the result starts as a fresh empty slice", proc, acc.Phi, "", nil)
-				hdr := acc.Added
+				hdr := ff.Unphi(acc.Added)
 				fs := ff.AtInstr(acc.Append)
 				var unm, val *ssa.Call
 				var cv *ssa.Call
